@@ -68,6 +68,19 @@ pub fn run(ctx: &mut Ctx) {
         let Out::Ok(arrays) = guarded(|| serde_arrow::to_marrow(std::slice::from_ref(&field), &rows).map_err(|e| e.to_string())) else { ctx.count("skipped:rows_rejected"); continue };
         let whole = arrays[0].as_view();
         view_case(ctx, &field, &whole, "whole", None);
+        // a foreign but equivalent layout: every union with its children in the reverse order (children are identified by
+        // name, type ids renumbered): every row must read as in the writer's own layout
+        if crate::foreign::has_union(&field) {
+            let (rf, ra) = (crate::foreign::rev_field(&field), crate::foreign::rev_array(&arrays[0]));
+            let rv = ra.as_view();
+            ctx.count("foreign_layout:unions_reversed");
+            let idx = view_case(ctx, &rf, &rv, "unions_reversed", None);
+            for i in 0..nrows {
+                let (a, b) = (read_at(&field, &whole, i), read_at(&rf, &rv, i));
+                let same = match (&a, &b) { (Out::Ok(x), Out::Ok(y)) => x == y, (Out::Err(_), Out::Err(_)) => true, _ => false };
+                if !same { ctx.fail(idx, "foreign_layout_changes_values", format!("row {}: {} in the writer's layout, {} with the union children reversed", i, a.class(), b.class())); }
+            }
+        }
         // windows
         let exhaustive = prop == "C12" && nrows <= 9;
         let mut windows: Vec<(usize, usize)> = vec![];
